@@ -254,6 +254,14 @@ func FW1(x string) string {
 	return buf.String()
 }
 
+// variadic spread: the rewritten call must keep the "..."
+func FW2(a, b string) string {
+	var buf bytes.Buffer
+	xs := []any{a, b}
+	buf.WriteString(fmt.Sprintf("%s-%s", xs...))
+	return buf.String()
+}
+
 // ---- QF1001 / S1002 further shapes ----
 
 func DM20(a, b, c bool) bool { return !(a && b) && !(b || c) }
